@@ -30,7 +30,8 @@ def tlc_cases(tier):
 def ratios(tier, seed):
     rnd = random.Random(seed)
     base = [2.0, 1.6, 4.0, 1.5, 3.0, 1.1, 10.0, 1.64, 2.04]
-    extra = [round(rnd.uniform(1.05, 10.0), 6) for _ in range(2 if tier == 'quick' else 8)]
+    # full-precision reals (not short decimals): a rule must belong to the ratio it was asked for, to the last bit
+    extra = [rnd.uniform(1.05, 10.0) for _ in range(2 if tier == 'quick' else 8)] + [math.sqrt(2.0), math.e] + ([math.pi, (1 + math.sqrt(5.0)) / 2, 10.0 ** (1.0 / 3)] if tier != 'quick' else [])
     return base + extra
 
 
